@@ -22,6 +22,7 @@ structure DS where
   hasGov : Bool := false
   cert : Cert.State := default
   hasCert : Bool := false
+  certUnret : List String := []
   stake : Gov.StakeView := default
   -- C14 ghost ledger (from observations only)
   dep : List (Addr × Coins) := []
@@ -53,7 +54,7 @@ def loadObs (ds : DS) (st : Json) : DS := Id.run do
   if J.has st "bank" then ds := { ds with ledger := parseLedger (J.get st "bank") }
   if J.has st "oracle" then ds := { ds with oracle := OracleD.parseState (J.get st "oracle"), hasOracle := true }
   if J.has st "gov" then ds := { ds with gov := GovD.parseGov (J.get st "gov"), hasGov := true }
-  if J.has st "cert" then ds := { ds with cert := GovD.parseCert (J.get st "cert"), hasCert := true }
+  if J.has st "cert" then ds := { ds with cert := GovD.parseCert (J.get st "cert"), hasCert := true, certUnret := GovD.unretrievable (J.get st "cert") }
   if J.has st "staking" then ds := { ds with stake := GovD.parseStake (J.get st "staking") }
   return ds
 
@@ -181,6 +182,7 @@ def runMonitors (ds : DS) (afterBegin boundary : Bool) : IO DS := do
     for x in GovD.monAliasUnique c do ds ← finding ds "monitor" "C13" "alias_unique" x
     for x in GovD.monAliasIndex c do ds ← finding ds "monitor" "C13" "alias_unique" x
     if !GovD.monIdsUnique c then ds ← finding ds "monitor" "C13" "fresh_id" (String.intercalate ";" (GovD.certFacts c))
+    for x in ds.certUnret do ds ← finding ds "monitor" "C13" "certificate_retrievable" x
   return ds
 
 /-- transition monitors of gov/cert that hold for every kind of step -/
@@ -322,12 +324,13 @@ def handleBegin (ds : DS) (j : Json) : IO DS := do
 
 def handleEnd (ds : DS) (j : Json) : IO DS := do
   let pre : MW := { l := ds.ledger, o := ds.oracle, g := ds.gov, c := ds.cert }
-  let preStake := ds.stake
   let mut ds := ds
   if J.has j "panic" then
     ds ← finding ds "panic" "C08" ("end:" ++ J.strOf (J.get j "panic") "site") (J.strOf (J.get j "panic") "value")
     return ds
   ds := loadObs ds (J.get j "st")
+  -- the staking end-blocker runs before governance's: the tally reads the staking state as it is after this block
+  let preStake := ds.stake
   ds := stat ds "block.end"
   let mut w := pre
   let mut modelOk := true
@@ -396,13 +399,17 @@ def handleEnd (ds : DS) (j : Json) : IO DS := do
             let passed := q.status == 4 || q.status == 6
             if pass != passed then
               ds ← finding ds "monitor" "C12" "stake_round_rule" s!"proposal {p.id} ({p.kind}): rule says pass={pass} veto={veto}, status {q.status}; votes={votes.map (fun v => (v.voter, v.option))}"
-            if veto != !(Coins.isZero burned) && finalised.length == 1 then
-              ds ← finding ds "monitor" "C11" "veto_burns" s!"proposal {p.id}: veto={veto} burned={Coins.toStr burned}"
+            if finalised.length == 1 then
+              -- a vetoed proposal's deposits are burned, exactly; nothing is burned otherwise
+              let expected : Coins := if veto then total else []
+              if !Coins.beq burned expected then
+                ds ← finding ds "monitor" "C11" "veto_burns" s!"proposal {p.id}: veto={veto} deposits={Coins.toStr total} burned={Coins.toStr burned}"
           else ds := stat ds "sit.c12.rule_too_close_to_call"
         if p.status == 2 && q.status != 2 then
           ds := stat ds s!"sit.c12.certifier_round_ended.{q.status}"
           let (pass, decisive) := GovD.specSecurityRule pre.c.certifiers.length votes pre.g.params.security
-          if decisive then
+          -- the head count is taken when the proposal is tallied: decisive only if the council did not change in this block
+          if decisive && pre.c.certifiers.length == ds.cert.certifiers.length then
             if p.kind == "certifierUpdate" then
               if pass != (q.status == 4 || q.status == 6) && !(q.status == 3 && !pass) then
                 ds ← finding ds "monitor" "C12" "certifier_round_rule" s!"proposal {p.id}: certifiers pass={pass}, status {q.status}"
